@@ -216,7 +216,8 @@ def alloc_fact(tree, cls, attr, expected):
                             for el in (t.elts if isinstance(t, ast.Tuple) else [t]):
                                 if ast.unparse(el) == "self." + attr:
                                     sites.append((fn.name, ast.unparse(st.value) if getattr(st, "value", None) is not None else ""))
-    return sites == [("__init__", expected)]
+    # np.zeros in place of np.empty is the same buffer (the model never reads a cell it has not written)
+    return sites in ([("__init__", expected)], [("__init__", expected.replace("np.empty(", "np.zeros(", 1))])
 
 
 def translate(compute_src, torch_src):
